@@ -215,8 +215,16 @@ func vfloatfmt(args []string) error {
 	for _, f := range vals {
 		uniq = append(uniq, f)
 	}
+	// ... nor on what the PREVIOUS number was: neighbours that compare equal (+0 / -0), differ only in sign, or repeat
+	negz := math.Copysign(0, -1)
+	triples := [][3]float64{{0, negz, 0}, {negz, 0, negz}, {0, 0, negz}, {negz, negz, 0}, {1, 1, 1}, {1, -1, 1}}
 	for i := range uniq {
-		fsel := [3]float64{uniq[i], uniq[(i*7+3)%len(uniq)], uniq[(i*13+5)%len(uniq)]}
+		triples = append(triples, [3]float64{uniq[i], uniq[(i*7+3)%len(uniq)], uniq[(i*13+5)%len(uniq)]})
+		if i%3 == 0 {
+			triples = append(triples, [3]float64{uniq[i], -uniq[i], uniq[i]}, [3]float64{uniq[i], uniq[i], -uniq[i]})
+		}
+	}
+	for _, fsel := range triples {
 		var refs [3]string
 		for k := range fsel {
 			if serr := slots[k].SetFloat(fsel[k]); serr != nil {
